@@ -103,7 +103,8 @@ def tail_descriptor(rows: List[codec.WRow], fn: Optional[ast.FunctionDef] = None
     d: Dict[str, Any] = {"order": []}
     for r in rows:
         if fn is not None and r.kind == "chunk" and r.cid == "CMID" and r.payload_expr is not None:
-            r.payload_expr = subst_locals(fn, r.payload_expr)
+            from ..packed import fuse_comprehensions
+            r.payload_expr = fuse_comprehensions(subst_locals(fn, r.payload_expr))
         if r.kind == "magic" and r.cid == "SEND":
             d["order"].append("SEND")
             continue
@@ -195,14 +196,24 @@ def sibling_writers(repo: Repo, rep, P: str):
         rep.ok(f"{P}.R2", scon, "stand-alone tail ≡ in-project tail", "sibling writers agree on all compared fields")
     rep.sample({"in_project_tail": {k: pd.get(k) for k in keys}, "stand_alone_tail": {k: sd.get(k) for k in keys}})
     # frozen difference: Synth.chunks recomputes attachment first
-    sfn = repo.own_method(synth, "chunks")
-    src = norm(sfn)
-    if "recompute_controller_attachment" in src:
-        i1 = src.index("recompute")
-        i2 = src.index("c.attached(") if "c.attached(" in src else -1
-        if 0 <= i1 < i2:
+    from .. import inline
+    sfn = inline.normalize(repo, synth, repo.own_method(synth, "chunks"))
+    p_rc = [inline.pos(n) for n in ast.walk(sfn) if (isinstance(n, ast.Attribute) and n.attr == "recompute_controller_attachment")
+            or (isinstance(n, ast.Constant) and n.value == "recompute_controller_attachment")]
+    # the call itself (a getattr-bound local is called later than it is looked up)
+    calls_rc = [inline.pos(c) for c in ast.walk(sfn) if isinstance(c, ast.Call) and
+                ((isinstance(c.func, ast.Attribute) and c.func.attr == "recompute_controller_attachment") or
+                 (isinstance(c.func, ast.Name) and any(isinstance(a, ast.Assign) and isinstance(a.targets[0], ast.Name) and a.targets[0].id == c.func.id
+                                                       and "recompute_controller_attachment" in norm(a.value) for a in ast.walk(sfn))) or
+                 (isinstance(c.func, ast.Call) and "recompute_controller_attachment" in norm(c.func)))]
+    p_att = [inline.pos(c) for c in ast.walk(sfn) if isinstance(c, ast.Call) and isinstance(c.func, ast.Attribute) and c.func.attr == "attached"]
+    if p_rc:
+        first_rc = min(calls_rc) if calls_rc else min(p_rc)
+        if p_att and first_rc < min(p_att):
             rep.ok(f"{P}.R2", scon, "recompute_controller_attachment() before the attached filter", "frozen difference (idempotent re-derivation)",
                    nontrivial=False)
+        elif not p_att:
+            rep.inconclusive(f"{P}.R2", scon, "recompute_controller_attachment", "the attached filter was not found in the synth writer", synth.file.rel)
         else:
             rep.violation(f"{P}.R2", scon, "recompute after the filter", "attachment must be re-derived before it is consulted", synth.file.rel)
     synth_header_context(repo, rep, P, "R2")
@@ -687,15 +698,17 @@ def unit_before_dependant(repo: Repo, rep, P: str):
         rep.inconclusive(f"{P}.R5", f"{rel}:ModuleReader.process_SEND", "", "CVAL application loop not recognised", f"{rel}:{send.lineno}")
     # Module.__init__ seeds non-dependants first
     mod = repo.cls("Module", module="rv.modules.module")
-    init = repo.own_method(mod, "__init__")
-    loops = [st for st in init.body if isinstance(st, ast.For) and "self.controllers.items()" in norm(st.iter)]
-    tests = [norm(l.body[0].test) if l.body and isinstance(l.body[0], ast.If) else "" for l in loops]
-    if tests == ["not isinstance(controller.value_type, DependentRange)", "isinstance(controller.value_type, DependentRange)"]:
-        rep.ok(f"{P}.R5", f"{mod.file.rel}:Module.__init__", "plain controllers seeded first, dependants second")
+    from . import c09
+    seeds, init = c09.controller_seeding(repo)
+    filters = [f for f, _, _ in seeds]
+    if filters in (["plain", "dependent"], ["all-sorted"]):
+        rep.ok(f"{P}.R5", f"{mod.file.rel}:Module.__init__", " → ".join(filters), "plain controllers seeded first, dependants second")
+    elif "?" in filters or not filters:
+        rep.inconclusive(f"{P}.R5", f"{mod.file.rel}:Module.__init__", "; ".join(t for _, _, t in seeds)[:240], "controller seeding order not recognised",
+                         f"{mod.file.rel}:{init.lineno}")
     else:
-        rep.violation(f"{P}.R5", f"{mod.file.rel}:Module.__init__", str(tests),
+        rep.violation(f"{P}.R5", f"{mod.file.rel}:Module.__init__", str(filters),
                       "the constructor must seed unit controllers before the controllers whose range depends on them", f"{mod.file.rel}:{init.lineno}")
-    # positional coupling: cnum indexes the attached-controller key list built at STYP
     kl = order.reader_key_list(repo)
     if kl.attached_first is True and not kl.problems:
         rep.ok(f"{P}.R5", f"{rel}:ModuleReader.process_STYP", "_controller_keys = attached controllers in order",
